@@ -59,6 +59,10 @@ impl Clone for SessionId { #[verifier::external_body] fn clone(&self) -> (r: Sel
 #[verifier::external_body] #[derive(PartialEq, Eq, Structural)] pub struct ValidatorKey { _p: u8 }   // validator::PublicKey
 #[verifier::external_body] pub struct NodeSecret { _p: u8 }
 #[verifier::external_body] pub struct ValidatorSecret { _p: u8 }
+impl ValidatorSecret { pub uninterp spec fn pk(&self) -> ValidatorKey;      // A3: the matching public key (offered so that code asking for it is decided)
+    #[verifier::external_body] pub fn public(&self) -> (r: ValidatorKey) ensures r == self.pk() { unimplemented!() } }
+impl NodeSecret { pub uninterp spec fn pk(&self) -> NodeKey;
+    #[verifier::external_body] pub fn public(&self) -> (r: NodeKey) ensures r == self.pk() { unimplemented!() } }
 #[verifier::external_body] pub struct NodeSig { _p: u8 }
 #[verifier::external_body] pub struct ValSig { _p: u8 }
 #[verifier::external_body] pub struct InvalidSignatureError { _p: u8 }
